@@ -134,6 +134,18 @@ def run(tier, seed):
     for _ in range(n):
         pcases.append(dict(attrs=rng.randrange(2 ** 32), kind=rng.choice(["RSA", "ECC"]), ap=rng.choice(LENS), unique=rng.choice(LENS), uy=rng.choice(LENS),
                            name_alg=rng.choice(list(ALG)), sym=rng.choice(list(ALG)), scheme=rng.choice(list(ALG)), curve=rng.choice(list(CURVE)), kdf=rng.choice(list(ALG))))
+    # the enumerated members are independent of one another: the full product of (name algorithm) x (scheme) x (curve) x (symmetric) x (kdf) x (attribute profile) for ECC keys,
+    # and of (name algorithm) x (scheme) x (symmetric) x (attribute profile) for RSA keys - each member decodes to the value encoded, whatever the others say
+    hashes = [0x0004, 0x000B, 0x000C, 0x000D, 0x0012, 0x0010, 0x0000]
+    profiles = [0x00040072, 0x00050472, 0x00060072, 0x00000000]      # unrestricted signing key / restricted signing key (AIK) / decryption key / nothing set
+    for na_ in hashes:
+        for sch_ in ALG:
+            for pi_, at_ in enumerate(profiles if not quick else profiles[: 2]):
+                for sym_ in (0x0010, 0x0006):
+                    pcases.append(dict(kind="RSA", attrs=at_, name_alg=na_, scheme=sch_, sym=sym_, ap=0, unique=2))
+                    for cv_ in CURVE:
+                        for kdf_ in (0x0010, 0x0020):
+                            pcases.append(dict(kind="ECC", attrs=at_, name_alg=na_, scheme=sch_, sym=sym_, curve=cv_, kdf=kdf_, ap=0, unique=2, uy=2))
     for c in pcases:
         kind = c.get("kind", "RSA")
         attrs = c.get("attrs", 0x00050472)
